@@ -148,6 +148,27 @@ def step (D : Defects) (line : String) : String :=
     | some d => match writeMessage P d with
       | .ok f => s!"ok {hexOfBytes f}"
       | .error e => s!"err {errName e}"
+  | ["wseq", items] =>
+    -- several messages written to one writer, then the stream read back: a refused message contributes nothing
+    let parseItem (it : String) : Option Bytes :=
+      if it.startsWith "z" then ((it.drop 1).toString.toNat?).bind (fun n => if n ≤ 17 * 1024 * 1024 then some (List.replicate n 0) else none)
+      else if it.startsWith "h" then bytesOfHex (it.drop 1).toString
+      else none
+    let rec go (its : List String) (stream : Bytes) (vs : List String) : Option (Bytes × List String) :=
+      match its with
+      | [] => some (stream, vs.reverse)
+      | it :: rest =>
+        match parseItem it with
+        | none => none
+        | some d =>
+          match writeMessage P d with
+          | .ok f => go rest (stream ++ f) ("ok" :: vs)
+          | .error e => go rest stream (s!"err:{errName e}" :: vs)
+    match go (items.splitOn ",") [] [] with
+    | none => "bad-op"
+    | some (stream, vs) =>
+      let (ms, e) := readAll P stream
+      s!"w={joinWith "," vs} | {joinWith " " (ms.map (fun m => s!"ok {hexOrDash m}") ++ [s!"err {errName e}"])}"
   | ["wframezeros", n] =>
     match n.toNat? with
     | none => "bad-op"
